@@ -21,6 +21,9 @@ import tempfile
 import warnings
 
 warnings.filterwarnings('ignore')
+for _v in ('OMP_NUM_THREADS', 'OPENBLAS_NUM_THREADS', 'MKL_NUM_THREADS', 'NUMEXPR_NUM_THREADS',
+           'NUMEXPR_MAX_THREADS'):
+    os.environ.setdefault(_v, '1')  # the checks are parallel over cases, not inside a case
 
 import numpy as np  # noqa: E402
 import pandas as pd  # noqa: E402
@@ -62,18 +65,20 @@ SCHEMAS = {
     'evid': dict(model='iv', id='ID', cols=['EVID'], kinds=['o', 'd', 'r', 'R']),
     'mdv': dict(model='iv', id='ID', cols=['MDV'], kinds=['o', 'm', 'd']),
     'evid_mdv_rate': dict(
-        model='iv', id='ID', cols=['EVID', 'MDV', 'RATE'], kinds=['o', 'd', 'r', 'R']
+        model='iv', id='ID', cols=['EVID', 'MDV', 'RATE'], kinds=['o', 'd', 'r', 'R'], small=True
     ),
     'addl': dict(model='iv', id='ID', cols=['ADDL', 'II'], kinds=['o', 'd', 'da']),
     'evid_addl': dict(
         model='iv', id='ID', cols=['EVID', 'ADDL', 'II'], kinds=['o', 'd', 'da', 'r', 'Ra']
     ),
     'ss': dict(model='iv', id='ID', cols=['SS'], kinds=['o', 'd', 'ds']),
-    'subj_evid': dict(model='iv', id='SUBJ', cols=['EVID'], kinds=['o', 'd', 'r', 'R']),
+    'subj_evid': dict(
+        model='iv', id='SUBJ', cols=['EVID'], kinds=['o', 'd', 'r', 'R'], small=True
+    ),
     'subj_addl': dict(model='iv', id='SUBJ', cols=['ADDL', 'II'], kinds=['o', 'd', 'da']),
     'cmt': dict(model='ivoral', id='ID', cols=['CMT'], kinds=['o', 'd1', 'd2']),
     'cmt_evid': dict(
-        model='ivoral', id='ID', cols=['EVID', 'CMT'], kinds=['o', 'd1', 'd2', 'R1', 'R2']
+        model='ivoral', id='ID', cols=['EVID', 'CMT'], kinds=['o', 'd1', 'd2', 'R1']
     ),
     'admid_evid': dict(model='ivoral', id='ID', cols=['EVID', 'ADMID'], kinds=['o', 'd1', 'd2']),
 }
@@ -961,13 +966,17 @@ def _seqs(kinds, n, times):
 
 
 def _enumerate_cases(tier):
-    thorough = tier == 'thorough'
-    nmax = 4 if thorough else 3
-    tot = 4 if thorough else 3
+    """quick: one individual with <=3 records (<=2 in the 'small' schemas), TIME in {0,1,2};
+    two individuals with <=3 records in total (<=2 in the small schemas), TIME in {0,1},
+    ids (3,7) and, when both have one record, also (7,3).  thorough: one more record."""
+    extra = 1 if tier == 'thorough' else 0
     t1 = (0, 1, 2)
-    t2 = (0, 1, 2) if thorough else (0, 1)
+    t2 = (0, 1)
     for name, sch in SCHEMAS.items():
         kinds = sch['kinds']
+        small = 1 if sch.get('small') else 0
+        nmax = 3 - small + extra
+        tot = 3 - small + extra
         for n in range(1, nmax + 1):
             for s in _seqs(kinds, n, t1):
                 yield {'schema': name, 'ids': [3], 'inds': [s]}
@@ -975,16 +984,27 @@ def _enumerate_cases(tier):
             for n2 in range(1, tot - n1 + 1):
                 for s1 in _seqs(kinds, n1, t2):
                     for s2 in _seqs(kinds, n2, t2):
-                        for ids in ([3, 7], [7, 3]):
-                            yield {'schema': name, 'ids': ids, 'inds': [s1, s2]}
+                        yield {'schema': name, 'ids': [3, 7], 'inds': [s1, s2]}
+                        if n1 + n2 <= 2 + extra:
+                            yield {'schema': name, 'ids': [7, 3], 'inds': [s1, s2]}
 
 
 def _case_size(case):
     return sum(len(s) for s in case['inds'])
 
 
+def _single_thread():
+    try:
+        import numexpr
+
+        numexpr.set_num_threads(1)
+    except Exception:  # noqa: BLE001
+        pass
+
+
 def _work(chunk):
     warnings.filterwarnings('ignore')
+    _single_thread()
     out = []
     for idx, case in chunk:
         try:
